@@ -11,6 +11,7 @@ require (
 	github.com/seaweedfs/fuse v1.1.8
 	github.com/syndtr/goleveldb v1.0.0
 	go.etcd.io/etcd v3.3.15+incompatible
+	golang.org/x/net v0.0.0-20201202161906-c7110b5ffcbb
 	google.golang.org/grpc v1.29.1
 )
 
@@ -129,7 +130,6 @@ require (
 	gocloud.dev/pubsub/rabbitpubsub v0.20.0 // indirect
 	golang.org/x/crypto v0.0.0-20200622213623-75b288015ac9 // indirect
 	golang.org/x/image v0.0.0-20200119044424-58c23975cae1 // indirect
-	golang.org/x/net v0.0.0-20201202161906-c7110b5ffcbb // indirect
 	golang.org/x/oauth2 v0.0.0-20200107190931-bf48bf16ab8d // indirect
 	golang.org/x/sync v0.0.0-20201207232520-09787c993a3a // indirect
 	golang.org/x/sys v0.0.0-20210603081109-ebe580a85c40 // indirect
